@@ -31,19 +31,22 @@ impl<'de> Multipart<'de> {
                 item: TextOrFiles::Text(text),
             },
             Part::File { name, file } => {
-                if file.filename.is_empty() && file.content.is_empty() {
-                    return Some(Next { name, item: TextOrFiles::Files(Vec::new()) })
-                }
-
+                /*
+                    all the files submitted under this name, wherever they are in the body
+                    ( file inputs sharing a name are not always next to each other );
+                    an empty file input submits no file, also next to filled ones
+                */
                 let mut files = vec![file];
-                while self.peek().is_some_and(|part| match part {
-                    Part::File { name: next_name, .. } => name == *next_name,
-                    Part::Text { .. } => false,
-                }) {
-                    let Some(Part::File { file, .. }) = self.0.pop()
-                        else {unsafe {std::hint::unreachable_unchecked()}};
-                    files.push(file);
+                let mut i = self.0.len();
+                while i > 0 {
+                    i -= 1;
+                    if matches!(&self.0[i], Part::File { name: another_name, .. } if *another_name == name) {
+                        let Part::File { file, .. } = self.0.remove(i)
+                            else {unsafe {std::hint::unreachable_unchecked()}};
+                        files.push(file);
+                    }
                 }
+                files.retain(|file| !(file.filename.is_empty() && file.content.is_empty()));
 
                 Next {
                     name,
